@@ -10,6 +10,8 @@ with `Real.sqrt` in `Props/C08.lean`.
 The straight-line arithmetic and all threshold constants come from `DuneVerif/Gen/C08.lean`, which the translator
 regenerates from the current `fmatrixev.hh`; this file adds the control flow:
 
+* `eigenValues2x2`, `eigenValuesVectors2x2` — the 2x2 entry points: max-norm preconditioning (as in the 3x3 path),
+  closed form on the scaled matrix, eigenvalues scaled back;
 * `eigenValues2d`, `eigenVectorChoice2d`, `eigenVectors2d`, `eigenValuesVectors2d` — the 2x2 closed form with the
   clamp of slightly negative discriminants, the identity special case with the code's threshold, the choice of the
   larger column of `A - λI` (Cayley–Hamilton) and the normalisation;
@@ -20,7 +22,7 @@ regenerates from the current `fmatrixev.hh`; this file adds the control flow:
   as index arithmetic on flat arrays.
 
 The model describes the code *after* the proposed repairs fixes/C08_*.patch (relative identity threshold, sorted
-3x3 values, column-major copy in DynamicMatrixHelp::eigenValuesNonSym); since thresholds and the sort flag are
+3x3 values, column-major copy in DynamicMatrixHelp::eigenValuesNonSym, max-norm preconditioning of the 2x2 path); since thresholds and the sort flag are
 translated, the unrepaired source yields a different generated file on which the scale theorem does not hold.
 -/
 namespace DV.C08
@@ -131,6 +133,29 @@ def eigenValuesVectors2d (sqrt : K → K) (eps : K) (A : M2 K) : Except Err ((K 
   | .ok (l0, l1) => .ok ((l0, l1), eigenVectors2d sqrt eps A l0 l1)
 
 def smul2 (s : K) (A : M2 K) : M2 K := ⟨s * A.a00, s * A.a01, s * A.a10, s * A.a11⟩
+
+def sdiv2 (A : M2 K) (s : K) : M2 K := ⟨A.a00 / s, A.a01 / s, A.a10 / s, A.a11 / s⟩
+
+/-- `isnormal(norm) ? norm : 1` in exact arithmetic (the norm is non-negative; `isnormal` fails only for 0) -/
+def maxAbsElement2 (A : M2 K) : K := if (zero : K) < infNorm2 A then infNorm2 A else one
+
+/-- the matrix the closed form is applied to: `scaledMatrix = matrix / maxAbsElement` if the source preconditions
+the 2x2 path (translated flag `Gen.ev2_preconditioned`), the matrix itself otherwise -/
+def preScale2 (A : M2 K) : K := if Gen.ev2_preconditioned then maxAbsElement2 A else one
+
+/-- `FMatrixHelp::eigenValues` for 2x2: precondition by the max norm, closed form, `eigenValues *= maxAbsElement` -/
+def eigenValues2x2 (sqrt : K → K) (A : M2 K) : Except Err (K × K) :=
+  let m := preScale2 A
+  match eigenValues2d sqrt (sdiv2 A m) with
+  | .error e => .error e
+  | .ok (l0, l1) => .ok (l0 * m, l1 * m)
+
+/-- `FMatrixHelp::eigenValuesVectors` for 2x2 (the eigenvectors are those of the scaled matrix) -/
+def eigenValuesVectors2x2 (sqrt : K → K) (eps : K) (A : M2 K) : Except Err ((K × K) × (V2 K × V2 K)) :=
+  let m := preScale2 A
+  match eigenValuesVectors2d sqrt eps (sdiv2 A m) with
+  | .error e => .error e
+  | .ok ((l0, l1), v) => .ok ((l0 * m, l1 * m), v)
 
 /-! ## 3x3 -/
 
